@@ -29,6 +29,7 @@ type seq struct {
 	foreign  int // ordinal of a key outside the validator set
 	kinds    map[string]int
 	heights  map[int]int // eid -> height in its creator's chain (harness's own bookkeeping)
+	lazy     int         // small-cache sequences: a creator that is rarely chosen and rarely referenced (-1: none)
 }
 
 func classify(err error, panicked bool) string {
@@ -64,7 +65,10 @@ func classify(err error, panicked bool) string {
 func (q *seq) digest() string {
 	h := q.nd.Hg
 	var sb strings.Builder
-	type ke struct{ id uint32; i int }
+	type ke struct {
+		id uint32
+		i  int
+	}
 	l := []ke{}
 	for id, last := range q.nd.Store.KnownEvents() {
 		l = append(l, ke{id, last})
@@ -128,6 +132,14 @@ func (q *seq) attempt(kind string, ev *hg.Event) {
 		q.kinds["via-wire"]++
 	}
 	cls := classify(err, panicked)
+	if q.lazy >= 0 && cls != "ok" && !panicked && !wasKnown {
+		// small-cache sequence: the event was inserted and a LATER consensus method failed on an evicted event (an
+		// InmemStore below its supported window): that is an admitted event whose pass failed, not a rejection
+		if _, gerr := q.nd.Store.GetEvent(ev.Hex()); gerr == nil && q.nd.Hg.VerifTopologicalIndex() == topoBefore+1 {
+			q.kinds["small-cache:inserted-then-pass-failed"]++
+			cls = "ok"
+		}
+	}
 	fmt.Fprintf(w.Out, "I %d %s => %s\n", q.nd.ID, line, cls)
 	fmt.Fprintf(w.Out, "# attempt kind=%s\n", kind)
 	if cls == "ok" {
@@ -250,6 +262,9 @@ func (q *seq) headHex(c int) (string, int) {
 func (q *seq) randomOther(c int) string {
 	cands := []string{}
 	for o, h := range q.heads {
+		if o == q.lazy && q.rng.Intn(10) != 0 {
+			continue
+		}
 		if o != c {
 			cands = append(cands, h.Hex())
 		}
@@ -271,6 +286,9 @@ func (q *seq) txs() [][]byte {
 func (q *seq) step() {
 	rng := q.rng
 	c := rng.Intn(q.n)
+	if c == q.lazy && rng.Intn(6) != 0 {
+		c = (c + 1 + rng.Intn(q.n-1)) % q.n
+	}
 	sp, idx := q.headHex(c)
 	op := q.randomOther(c)
 	r := rng.Intn(100)
@@ -381,6 +399,8 @@ func (q *seq) step() {
 	}
 }
 
+var smallSeqs int
+
 func main() {
 	seed := flag.Int64("seed", 1, "seed")
 	nseq := flag.Int("seqs", 30, "number of sequences")
@@ -397,15 +417,28 @@ func main() {
 		for i := 0; i < n; i++ {
 			gen = append(gen, w.AddKey())
 		}
-		q := &seq{w: w, rng: rand.New(rand.NewSource(master.Int63())), n: n, heads: map[int]*hg.Event{}, kinds: map[string]int{}}
+		q := &seq{w: w, rng: rand.New(rand.NewSource(master.Int63())), n: n, heads: map[int]*hg.Event{}, kinds: map[string]int{}, lazy: -1}
 		q.foreign = w.AddKey()
-		q.nd = w.NewBareNode(0, gen, hg.NewInmemStore(1000))
+		cache, nsteps := 1000, *steps
+		if master.Intn(4) == 0 {
+			// small-cache sequence: an InmemStore whose LRU evicts the last event of a creator that stays silent and
+			// unreferenced for a while. The model has no cache (a valid event whose parent was evicted is legitimately
+			// refused), so the node is declared unmodelled (F) and only the admission oracle is evaluated: whatever IS
+			// admitted must still be well formed.
+			cache, nsteps = 5+master.Intn(8), 4*(*steps)
+			q.lazy = master.Intn(n)
+			smallSeqs++
+		}
+		q.nd = w.NewBareNode(0, gen, hg.NewInmemStore(cache))
+		if q.lazy >= 0 {
+			fmt.Fprintf(out, "F 0\n")
+		}
 		// sometimes start a chain with a non-zero first index
 		if master.Intn(3) == 0 {
 			c := master.Intn(n)
 			q.attempt("first-index-nonzero", q.mkEvent(c, "", "", []int{5, -7, 1}[master.Intn(3)], nil, nil, c))
 		}
-		for i := 0; i < *steps; i++ {
+		for i := 0; i < nsteps; i++ {
 			q.step()
 		}
 		ks := []string{}
